@@ -20,6 +20,7 @@ for d in sorted(glob.glob(SRC + "/C*-*")):
     out = os.path.join(DST, sid)
     os.makedirs(out, exist_ok=True)
     shutil.copy(d + "/patch.diff", out + "/patch.diff")
+    shutil.copy(d + "/detect.json", out + "/detect.json")
     for f in glob.glob(d + "/demo*.rs"):
         shutil.copy(f, out)
     prop = sid.split("-")[0]
